@@ -375,6 +375,14 @@ func c13Replay(c c13Case) (*c13World, *c13Model, error) {
 	w := c13New(c.Mems)
 	m := c13NewModel(win)
 	for i, t := range c.Path {
+		if t.End < t.Start {
+			// an empty or inverted range: accepted or refused, it names no address
+			func() {
+				defer func() { _ = recover() }()
+				_ = w.b.Attach(w.mems[t.Mem-1], "m", t.Start, t.End)
+			}()
+			continue
+		}
 		err := w.b.Attach(w.mems[t.Mem-1], "m", t.Start, t.End)
 		ok := m.attach(t)
 		if ok != (err == nil) {
@@ -573,6 +581,28 @@ func runC13(r *report.Run) {
 					if err != nil {
 						r.Violation("unexplained:attach-result", err.Error(), c)
 						return
+					}
+					// empty and inverted ranges with aligned ends (end = start-1, end < start): they contain no
+					// address, so whether Attach accepts them or not, no routing may change
+					for i := 0; i <= segs; i++ {
+						for _, back := range []uint32{1, 17, 33} {
+							st := base + uint32(i)*16
+							if st < back {
+								continue
+							}
+							t := c13Attach{2, st, st - back}
+							func() {
+								defer func() { _ = recover() }()
+								_ = w.b.Attach(w.mems[t.Mem-1], "m", t.Start, t.End)
+							}()
+							atomic.AddInt64(&transitions, 1)
+							if obs := c13Observe(w, win); obs != m.key() {
+								cc := c
+								cc.Path = append(append([]c13Attach(nil), path...), t)
+								r.Violation("unexplained:empty-range-attach-changed-routing", fmt.Sprintf("Attach($%06x,$%06x) names no address (end below start) but routing is now %s, was %s", t.Start, t.End, obs, m.key()), cc)
+								return
+							}
+						}
 					}
 					for _, t := range bad {
 						err := w.b.Attach(w.mems[t.Mem-1], "m", t.Start, t.End)
